@@ -69,6 +69,7 @@ func main() {
 	}()
 	debugFacts(c)
 	debugGuards(c)
+	debugTrace(c)
 	info := pf(c)
 	if *dump {
 		for _, o := range c.Obls {
